@@ -389,8 +389,9 @@ def rule_x4_for_loops(body, loops, counts):
             inner = body[o + 1:c]
             if re.search(r'\b(continue|break)\b', mask[o + 1:c]):
                 raise ExtractError('unsupported construct: break/continue inside translated for-loop')
+            # `$i` in the overlay stands for the loop's index variable, whatever the source calls it
             new = ('let mut %s: usize = 0;\n while %s < %s.len()\n%s\n{ %s %s\n %s += 1; }' %
-                   (idx, idx, coll, contract, bind, inner, idx))
+                   (idx, idx, coll, contract.replace('$i', idx), bind, inner, idx))
             body = body[:start] + new + body[c + 1:]
             counts['X4'] = counts.get('X4', 0) + 1
             pos = start + len('let mut %s: usize = 0;\n while ' % idx)
